@@ -546,7 +546,7 @@ func equalStrings(a, b []string) bool {
 
 func uniq(xs []string) []string {
 	seen := map[string]bool{}
-	var out []string
+	out := []string{}
 	for _, x := range xs {
 		if !seen[x] {
 			seen[x] = true
